@@ -10,8 +10,12 @@ require (
 )
 
 require (
+	github.com/antlr/antlr4/runtime/Go/antlr/v4 v4.0.0-20221202181307-76fa05c21b12 // indirect
+	github.com/kstenerud/go-describe v1.2.15 // indirect
+	github.com/kstenerud/go-duplicates v1.1.1 // indirect
 	github.com/kstenerud/go-uleb128 v1.1.0 // indirect
 	github.com/pkg/errors v0.8.0 // indirect
+	golang.org/x/exp v0.0.0-20220722155223-a9213eeb770e // indirect
 )
 
 replace github.com/kstenerud/go-concise-encoding => /repo
